@@ -1,6 +1,7 @@
 (* C01: keys and IDs are in bijection; decode(lookup(k)) = k; num_keys = |K|; decode beyond N is empty;
    construction succeeds for every valid key list, every variant, both modes. *)
-From X Require Import Base Arr Dac Trie Spec Wf IfaceQuery IfaceBuild Builder All AllBuild Examples ExampleFacts.
+From X Require Import Base Arr Dac Trie Spec Wf IfaceQuery IfaceBuild Builder All AllBuild Examples ExampleFacts
+  AccessLib AccessGen AccessDispatch AccessTrieGen AllAccessTrie.
 Local Open Scope N_scope.
 
 (* construction: for every valid key list (bounded total size) and every code table that is a permutation
@@ -36,9 +37,23 @@ Theorem C01_for_all_valid_K : forall v tbl K req, valid_keys K = true -> small_k
   (forall k i, lk P k = Some i -> decode P i = Ok k) /\ (forall i, lenN K <= i -> decode P i = Ok []).
 Proof. exact headline_ids. Qed.
 
+(* the same for trie::decode(id, buffer) and trie::lookup as REGENERATED FROM trie.hpp on every run (AccessTrieGen.v):
+   decode of the id that lookup gives returns the key, whatever the caller's buffer held before; ids >= N give "" *)
+Theorem C01_source_decode_inverts_lookup : forall v L P K, wf_for v L P K ->
+  trg_num_keys P = lenN K /\
+  (forall k i out0, lk P k = Some i -> i < 2^64 -> trg_decode P i out0 = Ok k) /\
+  (forall i out0, lenN K <= i -> i < 2^64 -> trg_decode P i out0 = Ok []).
+Proof. exact src_decode. Qed.
+Example C01_source_example : match ex_trie V7 with
+  | Ok P => match trg_lookup P [97; 98] with
+            | Ok (Some i) => trg_decode P i [1; 2; 3] = Ok [97; 98] /\ trg_decode P 1000 [9] = Ok []
+            | _ => False end
+  | _ => False end.
+Proof. vm_compute. split; reflexivity. Qed.
+
 Example C01_nonvacuous : forall v, exists L P, ex_logical v = Ok L /\ wf_for v L P ex_keys.
 Proof. exact ex_wf_for. Qed.
 
 Print Assumptions C01_construction_succeeds.
 Print Assumptions C01_ids_bijection. Print Assumptions C01_decode_inverts_lookup. Print Assumptions C01_decode_total.
-Print Assumptions C01_for_all_valid_K.
+Print Assumptions C01_for_all_valid_K. Print Assumptions C01_source_decode_inverts_lookup.
